@@ -78,6 +78,21 @@ theorem sq_correct (H : Host) (t : Tmpl) (wf : t.WF = true) :
   rw [h]
   cases subst (toBinding H) t <;> simp
 
+/-- `sq_correct` misses no input: every form without a dotted pair (`Proper`) is the writing
+of an unambiguous template (`decode`), so for **every** such form `s` the value of
+`(syntaxQuote s)` is the substitution of the template it reads as. -/
+theorem sq_correct_all_forms (H : Host) (s : Sexp) (hp : Proper s = true) :
+    evalSQ H s = (subst (toBinding H) (decode s)).map (fun v => (v, 0)) := by
+  have hd := decode_ok s hp
+  have h := sq_correct H (decode s) hd.2
+  rwa [hd.1] at h
+
+/-- What the code does where the property is silent: a dotted pair at the top is pushed exactly
+as written — unquote forms inside it are *not* substituted. -/
+theorem dotted_pair_pushed_literally (H : Host) (h t : Sexp) (hd : isList t = false) :
+    evalSQ H (.cons h t) = some (.cons h t, 0) := by
+  simp [evalSQ, evalOn, genTop, isUnquoteSplicing, genSQ, hd, run, step]
+
 /-- A splice that is not inside any list, array or hash is refused at compile time: nothing
 runs and nothing is pushed. -/
 theorem top_splice_rejected (H : Host) (e : Sexp) (st : Stack) :
